@@ -406,6 +406,24 @@ static int cmd_trace(int argc, char **argv) {
 	_exit(0);
 }
 
+// distinct <file>...: number of distinct 64-bit values in the given binary files (worker hash logs)
+static int cmd_distinct(int argc, char **argv) {
+	std::vector<uint64_t> all;
+	for (int i = 2; i < argc; ++i) {
+		std::ifstream f(argv[i], std::ios::binary);
+		f.seekg(0, std::ios::end);
+		size_t n = (size_t) f.tellg() / 8;
+		f.seekg(0);
+		size_t old = all.size();
+		all.resize(old + n);
+		f.read((char *) (all.data() + old), (std::streamsize)(n * 8));
+	}
+	std::sort(all.begin(), all.end());
+	size_t d = (size_t)(std::unique(all.begin(), all.end()) - all.begin());
+	printf("%zu\n", d);
+	return 0;
+}
+
 int main(int argc, char **argv) {
 	if (argc < 2) { fprintf(stderr, "usage: simlha work|replay|shrinkcrash|count|gen|mkcorpus|selftest ...\n"); return 2; }
 	std::string cmd = argv[1];
@@ -415,6 +433,7 @@ int main(int argc, char **argv) {
 	if (cmd == "count") return cmd_count(argc, argv);
 	if (cmd == "gen") return cmd_gen(argc, argv);
 	if (cmd == "trace") return cmd_trace(argc, argv);
+	if (cmd == "distinct") return cmd_distinct(argc, argv);
 	if (cmd == "mkcorpus") return corpus_tool_main(argc, argv);
 	if (cmd == "selftest") return selftest_main(argc, argv);
 	fprintf(stderr, "unknown command %s\n", cmd.c_str());
